@@ -534,4 +534,113 @@ theorem spec_zeros (iw : List Nat) (acc : Int) :
       · rw [if_neg h2, ih, List.count_cons]
         simp [h2]
 
+/-! ### sequences of queries on one object -/
+
+theorem kymoGetImage_eq (P : Nat) (iw : List Nat) (chan : List Int) :
+    kymoGetImage P iw chan = imageOfPixels (.kymo P) (channelPixels iw chan) := by
+  unfold kymoGetImage
+  cases channelPixels iw chan <;> rfl
+
+theorem scanGetImage_eq (axes : Axes) (iw : List Nat) (chan : List Int) :
+    scanGetImage axes iw chan = imageOfPixels (.scan axes) (channelPixels iw chan) := by
+  unfold scanGetImage
+  cases channelPixels iw chan <;> rfl
+
+/-- Every memoised image is the image the default factory builds from the object's CURRENT start. -/
+def Coherent (k : Kind) (iw : List Nat) (ss : Streams) (st : ObjState) : Prop :=
+  ∀ c im, lookupImage c st.cache = some im → freshImage k iw (streamOf ss c) st.off = .ok im
+
+theorem coherent_fresh (k : Kind) (iw : List Nat) (ss : Streams) : Coherent k iw ss ObjState.fresh := by
+  intro c im h
+  simp [ObjState.fresh, lookupImage] at h
+
+/-- `_get_photon_count` either leaves the object alone or replaces `_cache` by an empty dict. -/
+theorem photonAccess_cases (k : Kind) (iw : List Nat) (s : Stream) (st st' : ObjState)
+    (h : photonAccess k iw s st = .ok st') :
+    st' = st ∨ (st'.cache = [] ∧ st'.gen = st.gen + 1) := by
+  unfold photonAccess at h
+  split at h
+  · split at h
+    · cases h
+    · split at h
+      · cases h
+      · cases h; right; exact ⟨rfl, rfl⟩
+  · cases h; left; rfl
+
+theorem lookupImage_cons (c c' : Nat) (im : Image) (cache : List (Nat × Image)) :
+    lookupImage c' ((c, im) :: cache) = if c = c' then some im else lookupImage c' cache := by
+  unfold lookupImage
+  by_cases h : c = c' <;> simp [h]
+
+theorem queryColour_current (k : Kind) (iw : List Nat) (ss : Streams) (c : Nat) (st : ObjState)
+    (h : Coherent k iw ss st) :
+    Coherent k iw ss (queryColour k iw (streamOf ss c) c st).1 ∧
+    ∀ im, (queryColour k iw (streamOf ss c) c st).2 = .ok im →
+      freshImage k iw (streamOf ss c) (queryColour k iw (streamOf ss c) c st).1.off = .ok im := by
+  unfold queryColour
+  split
+  · next im hl => exact ⟨h, fun im' he => by cases he; exact h c im hl⟩
+  · split
+    · exact ⟨h, fun im he => by cases he⟩
+    · next st' hp =>
+      have hst' : Coherent k iw ss st' := by
+        rcases photonAccess_cases k iw _ st st' hp with rfl | ⟨hc, _⟩
+        · exact h
+        · intro c' im' hl; rw [hc] at hl; simp [lookupImage] at hl
+      split
+      · exact ⟨hst', fun im he => by cases he⟩
+      · next im hf =>
+        refine ⟨?_, fun im' he => ?_⟩
+        · split
+          · intro c' im' hl
+            rw [lookupImage_cons] at hl
+            by_cases hcc : c = c'
+            · subst hcc; simp at hl; subst hl; exact hf
+            · simp [hcc] at hl; exact hst' c' im' hl
+          · exact hst'
+        · cases he
+          split <;> exact hf
+
+theorem queryRgb_coherent (k : Kind) (iw : List Nat) (ss : Streams) (st : ObjState)
+    (h : Coherent k iw ss st) : Coherent k iw ss (queryRgb k iw ss st).1 := by
+  unfold queryRgb
+  have h0 := (queryColour_current k iw ss 0 st h).1
+  split
+  · next st1 e he => rw [he] at h0; exact h0
+  · next st1 r he =>
+    rw [he] at h0
+    have h1 := (queryColour_current k iw ss 1 st1 h0).1
+    split
+    · next st2 e he => rw [he] at h1; exact h1
+    · next st2 g he =>
+      rw [he] at h1
+      have h2 := (queryColour_current k iw ss 2 st2 h1).1
+      split
+      · next st3 e he => rw [he] at h2; exact h2
+      · next st3 b he => rw [he] at h2; exact h2
+
+theorem queryShape_coherent (k : Kind) (iw : List Nat) (ss : Streams) (cs : List Nat) (st : ObjState)
+    (h : Coherent k iw ss st) : Coherent k iw ss (queryShape k iw ss cs st).1 := by
+  induction cs generalizing st with
+  | nil => exact h
+  | cons c cs ih =>
+    unfold queryShape
+    have h0 := (queryColour_current k iw ss c st h).1
+    split
+    · next st1 e he => rw [he] at h0; exact h0
+    · next st1 im he =>
+      rw [he] at h0
+      split
+      · exact h0
+      · exact ih st1 h0
+
+theorem query_coherent (k : Kind) (iw : List Nat) (ss : Streams) (st : ObjState) (q : Nat)
+    (h : Coherent k iw ss st) : Coherent k iw ss (query k iw ss st q).1 := by
+  unfold query
+  split
+  · exact (queryColour_current k iw ss q st h).1
+  · split
+    · exact queryRgb_coherent k iw ss st h
+    · exact queryShape_coherent k iw ss _ st h
+
 end Verif.C02
